@@ -10,7 +10,10 @@ import (
 
 func verifYield(site string) { verifhook.Do(site) }
 
-func verifLock(l *sync.RWMutex, site string) { verifhook.Lock(l, true, site) }
+// Every acquisition of the manager's lock is exclusive, so the lock is either
+// free or writer-held; the pre-check therefore probes in read mode, which waits
+// for exactly that and does not itself keep two read-holders apart.
+func verifLock(l *sync.RWMutex, site string) { verifhook.Lock(l, false, site) }
 
 // verifEphemeralOffset lets the simulator choose the starting offset of the
 // ephemeral port search instead of the unseeded math/rand draw.
